@@ -302,11 +302,54 @@ func ruleOutput(c *Ctx) {
 				}
 			}
 		})
-		okOne := lookup != nil && len(updates) >= 2
+		okOne := lookup != nil
 		for _, u := range updates {
 			if lookup == nil || u.Key != lookup.Index || !lookup.Block().Dominates(u.Block()) {
 				okOne = false
 			}
+		}
+		// registrations made in a helper that getOutputStream calls with the looked-up name
+		nUpd := len(updates)
+		for _, h := range fns {
+			if h == gos {
+				continue
+			}
+			allInstrs(h, func(in ssa.Instruction) {
+				mu, ok := in.(*ssa.MapUpdate)
+				if !ok || interpFieldLoad(mu.Map) != "outputStreams" {
+					return
+				}
+				nUpd++
+				par, isPar := mu.Key.(*ssa.Parameter)
+				idx := -1
+				if isPar {
+					for i, hp := range h.Params {
+						if hp == par {
+							idx = i
+						}
+					}
+				}
+				sites := 0
+				for _, g := range fns {
+					allInstrs(g, func(gin ssa.Instruction) {
+						call, ok := gin.(ssa.CallInstruction)
+						if !ok || call.Common().StaticCallee() != h {
+							return
+						}
+						sites++
+						args := call.Common().Args
+						if g != gos || lookup == nil || idx < 0 || idx >= len(args) || args[idx] != lookup.Index || !lookup.Block().Dominates(gin.Block()) {
+							okOne = false
+						}
+					})
+				}
+				if sites == 0 {
+					okOne = false
+				}
+			})
+		}
+		if nUpd < 2 {
+			okOne = false
 		}
 		c.check(okOne, "one-stream", gos.Pos(), "the stream table is consulted first and every newly opened stream is registered under the looked-up name", "getOutputStream does not register every stream it opens under the name it looked up (after looking it up): the same name could denote two open streams, so a file is truncated twice or output goes to a stale stream")
 		for _, s := range []string{"/dev/stdout", "/dev/stderr"} {
@@ -323,6 +366,7 @@ func ruleOutput(c *Ctx) {
 
 	// ---- CHILD-WRITER
 	nCW := 0
+	cwIdx := map[string]int{}
 	for _, fn := range fns {
 		fn := fn
 		allInstrs(fn, func(in ssa.Instruction) {
@@ -339,7 +383,6 @@ func ruleOutput(c *Ctx) {
 				return
 			}
 			nCW++
-			key := fmt.Sprintf("child-writer:%s:%s<-%s", fnKey(fn), f.Name(), src)
 			// does this function wait for the child before returning?
 			waits := false
 			allInstrs(fn, func(i2 ssa.Instruction) {
@@ -347,6 +390,16 @@ func ruleOutput(c *Ctx) {
 					waits = true
 				}
 			})
+			// keyed by what is handed to which descriptor (not by the function, which a refactoring may split):
+			// hand-overs to a child the interpreter waits for are a class of their own
+			key := fmt.Sprintf("child-writer:%s<-%s", f.Name(), src)
+			if waits {
+				key = fmt.Sprintf("child-writer-waited:%s<-%s", f.Name(), src)
+			}
+			cwIdx[key]++
+			if cwIdx[key] > 1 {
+				key += "#" + itoa(int64(cwIdx[key]))
+			}
 			switch {
 			case waits:
 				c.ok(key, in.Pos(), "the interpreter blocks until the child exits, so the child's copier goroutine and the interpreter never write concurrently")
